@@ -7,6 +7,13 @@ TB_COMMON = [
 ]
 
 HARNESSES = {
+    "cfg": {
+        "module": "grpcgcp", "pkg": ".", "test": "TestVerifConfig",
+        "files": ["harness/grpcgcp/zz_verif_cfg_test.go", "harness/grpcgcp/zz_verif_pool_test.go"], "rewrite": "vclock",
+        "corpus_glob": "*.ops", "corpus_dirs": [],
+        "episode_start": r"^cfg ",
+        "tiers": {"quick": {"episodes": 1200}, "thorough": {"episodes": 40000, "seeds": 8}},
+    },
     "pb": {
         "module": "spanner_prober", "pkg": "prober", "test": "TestVerifProber",
         "files": ["harness/spanner_prober/prober/zz_verif_pb_test.go"],
@@ -90,7 +97,23 @@ PB_TB = TB_COMMON + [
     "ASCII inputs (Go strings are bytes; the model uses characters)",
 ]
 
+CFG_TB = TB_COMMON + [
+    "tools/extract: default sizes, and the shape facts `initializeConfig clones its parameter and never writes through it`, `the only initializeConfig call is guarded by gb.cfg == nil`, `GCPMultiEndpoint stores / returns clones` are regenerated from the Go AST; Proofs/Ties.lean re-checks them",
+    "modelled, not verified: protojson (for exactly this schema, on JSON syntax trees; JSON text parsing is Lean's Json parser in the driver), proto.Clone (deep copy), JSON objects with literally repeated keys are outside the generator (Lean's parser merges them)",
+    "the protojson round trip is established by the correspondence (every generated message is rendered by protojson.Marshal, parsed by the real ParseConfig and compared with proto.Equal, and the model must agree); the Lean `parse (render c) = c` is checked on evaluated examples only",
+    "mutation / aliasing of the caller's object is observed by the harness (bytes before/after, reachable pointer sets disjoint) in addition to the AST facts",
+]
+
 PROPS = {
+    "C17": {"harnesses": ["cfg"], "lake_targets": ["GcpVerif"],
+            "theorems": [("GcpVerif.Proofs.Config", "GcpVerif.Config." + n) for n in
+                         ["defaults_tie", "effective_defaults", "effective_absent_pool", "effective_no_config", "effective_methods",
+                          "effective_keeps_rest", "effective_idem", "method_table_sound", "method_table_complete",
+                          "method_table_unique", "method_table_none"]] +
+                        [("GcpVerif.Proofs.Ties", "GcpVerif.Ties." + n) for n in
+                         ["config_not_mutated_not_aliased", "first_update_wins_guard", "pool_defaults_tie"]],
+            "leanchecker": ["GcpVerif.Proofs.Config", "GcpVerif.Proofs.Ties"],
+            "trusted_base": CFG_TB, "assumptions": []},
     "C18": {"harnesses": ["pb", "pbflags"], "lake_targets": ["GcpVerif"],
             "theorems": [("GcpVerif.Proofs.Prober", "GcpVerif.Prober." + n) for n in
                          ["backoff_ge_base", "backoff_le_max", "backoff_mono_retries", "loop_succ", "t4t7_header_first",
@@ -122,7 +145,7 @@ PROPS = {
     "C07": pool_prop(["disabled_never_refreshes", "response_resets", "isResponse_iff", "stale_call_ignored", "refresh_trigger", "window_exponential", "refresh_once"], ["unresponsive_detection_ms * 2^k < 2^32 (the Go code computes the window in uint32; known finding K2)"]),
     "C08": pool_prop(["fallback_sticky", "fallback_new", "bound_ready_home", "lookup_preserves_binding"]),
     "C09": pool_prop(["rr_next_slot", "rrSlot_succ"], ["fairness: the cursor does not pass 2^32-1 inside the window unless n divides 2^32 (known finding K1); no Shutdown report for a pool member"]),
-    "C20": pool_prop(["resolver_error_identity"]),
+    "C20": dict(pool_prop(["resolver_error_identity"]), theorems=pool_thms(["resolver_error_identity"]) + [("GcpVerif.Proofs.Ties", "GcpVerif.Ties.resolver_error_only_logs")]),
     "C13": {
         "harnesses": ["me"], "lake_targets": ["GcpVerif"],
         "theorems": me_thms(["c13_mem_holds", "c13_mem_init", "c13_unavail_excluded_holds", "c13_noavail_holds", "c13_empty_holds", "reach_inv"]),
